@@ -12,6 +12,9 @@ import (
 const olPkg = Root + "/plugin/overloader"
 
 func init() {
+	register(&Rule{ID: "C18.7", Prop: "C18", Min: 2,
+		Text: "every refill clamps the bucket: each path of qpsLimiter.updateToken stores the token count, and the stored value is the limit, the per-tick amount (after an overdraw) or tokens+once on the edge where that sum does not exceed the limit - a tick that leaves the count untouched keeps tokens of an older, higher limit spendable",
+		Run:  runC18_7})
 	register(&Rule{ID: "C18.1", Prop: "C18", Min: 6,
 		Text: "limiter counters are shared atomically: connLimiter.{lim,now,tmp} and qpsLimiter.{tokens,limit,once} are accessed only through sync/atomic (constructors exempt)",
 		Run:  runC18_1})
@@ -415,4 +418,97 @@ func runC18_6(c *Ctx) {
 	}
 	c.fact("dominance")
 	c.Check(ok && stopsOwn, "qpsLimiter.update swaps tickers in order", p.Pos(fn.Pos()), "stopTicker() -> q.ticker = NewTicker -> go startTicker()", "qpsLimiter.update does not stop the old ticker before installing the new one (or starts the refill goroutine before/without it): the old refill goroutine keeps adding tokens at the old interval - the bucket refills far faster than configured")
+}
+
+func runC18_7(c *Ctx) {
+	p := c.P
+	fn := p.Fn(olPkg, "qpsLimiter", "updateToken")
+	qN, tokIdx := p.FieldIndex(olPkg, "qpsLimiter", "tokens")
+	_, limIdx := p.FieldIndex(olPkg, "qpsLimiter", "limit")
+	_, onceIdx := p.FieldIndex(olPkg, "qpsLimiter", "once")
+	isAtomic := func(i ssa.Instruction, name string, idx int) (*ssa.Call, bool) {
+		call, ok := i.(*ssa.Call)
+		if !ok || CalleeObj(call) == nil || CalleeObj(call).FullName() != "sync/atomic."+name || len(call.Call.Args) == 0 {
+			return nil, false
+		}
+		return call, isFieldAddr(call.Call.Args[0], qN, idx)
+	}
+	var store *ssa.Call
+	all, exits := p.MustPassFromEntry(fn, func(i ssa.Instruction) bool {
+		if call, ok := isAtomic(i, "StoreInt32", tokIdx); ok {
+			store = call
+			return true
+		}
+		return false
+	}, nil)
+	c.fact("must-pass")
+	var path []string
+	for _, e := range exits {
+		path = append(path, "return without storing the token count: "+p.InstrPos(e))
+	}
+	c.Check(all && store != nil, "updateToken stores the token count on every path", p.Pos(fn.Pos()), "every path ends in atomic.StoreInt32(&q.tokens, v)",
+		"a refill tick can return without rewriting the token count: after the limit was lowered the bucket keeps more tokens than the new limit for ever (more than the configured rate is admitted)", path...)
+	if store == nil {
+		return
+	}
+	isLoad := func(v ssa.Value, idx int) bool {
+		call, ok := v.(*ssa.Call)
+		if !ok {
+			return false
+		}
+		_, is := isAtomic(call, "LoadInt32", idx)
+		return is
+	}
+	okVals := true
+	bad := ""
+	for _, o := range valueOrigins(store.Call.Args[1]) {
+		switch {
+		case isLoad(o, limIdx), isLoad(o, onceIdx):
+		default:
+			bo, isB := o.(*ssa.BinOp)
+			guarded := false
+			if isB && bo.Op == token.ADD {
+				// on the false edge of `sum > limit` (or the true edge of `sum <= limit`)
+				for _, blk := range fn.Blocks {
+					ifi, isIf := blk.Instrs[len(blk.Instrs)-1].(*ssa.If)
+					if !isIf {
+						continue
+					}
+					cv, neg := stripNot(ifi.Cond)
+					cmp, isC := cv.(*ssa.BinOp)
+					if !isC || !isLoad(cmp.Y, limIdx) {
+						continue
+					}
+					// go/ssa does not share common sub-expressions: the compared sum is another ADD of the same operands
+					cadd, isAdd := cmp.X.(*ssa.BinOp)
+					if !isAdd || cadd.Op != token.ADD || !((cadd.X == bo.X && cadd.Y == bo.Y) || (cadd.X == bo.Y && cadd.Y == bo.X)) {
+						continue
+					}
+					var within *ssa.BasicBlock
+					switch cmp.Op {
+					case token.GTR:
+						within = blk.Succs[1]
+					case token.LEQ:
+						within = blk.Succs[0]
+					}
+					if neg && within != nil {
+						if within == blk.Succs[0] {
+							within = blk.Succs[1]
+						} else {
+							within = blk.Succs[0]
+						}
+					}
+					if within != nil && BlockDominatesInstr(within, bo) {
+						guarded = true
+					}
+				}
+			}
+			if !guarded {
+				okVals = false
+				bad = o.String()
+			}
+		}
+	}
+	c.fact("phi-provenance")
+	c.Check(okVals, "updateToken stores a clamped value", p.InstrPos(store), "stored value is limit, once, or tokens+once on the `<= limit` edge", "updateToken can store "+bad+" into the token count without comparing it with the limit: the bucket grows beyond the configured rate")
 }
